@@ -6,7 +6,7 @@ Real code (entered through what a user calls):
   ml_metrics.metrics.text.topk_word_ngrams / pattern_frequency / avg_alphabetical_char_count (one-shot functions)
   all of which sit on ml_metrics._src.aggregates.utils.FrequencyState.
 Model: lean/MlModel/Model/Agg/Text.lean + TextHeap.lean through lean/Driver/AggText.lean ("aggtext").
-Theorems: lean/MlModel/Properties/{C01,C11,C07}/Text.lean (+ Witness/C11Text.lean).
+Theorems: lean/MlModel/Properties/{C01,C11,C07}/Text.lean (+ Witness/C11Text.lean, Witness/C07Text.lean, Witness/C01Text.lean).
 
 `ml_metrics._src.metrics.text` imports `ml_metrics._src.signals.text`, which imports
 `ml_metrics.google.tools.telemetry` - a package that does not exist in the open-source tree (this is why
@@ -31,9 +31,9 @@ from fractions import Fraction as Fr
 
 from harness.core import deep_close, err_kind
 
-LEAN_C01 = ['MlModel.Properties.C01.Text']
+LEAN_C01 = ['MlModel.Properties.C01.Text', 'MlModel.Witness.C01Text']
 LEAN_C11 = ['MlModel.Properties.C11.Text', 'MlModel.Witness.C11Text']
-LEAN_C07 = ['MlModel.Properties.C07.Text']
+LEAN_C07 = ['MlModel.Properties.C07.Text', 'MlModel.Witness.C07Text']
 
 TRUSTED = [
     'text family: `ml_metrics.google.tools.telemetry` (absent from the open-source tree) is replaced by a no-op decorator '
